@@ -275,7 +275,23 @@ func ResetForSim() {
 func (c *OneConnection) VerifAddToList()   { c.addToList() }
 func (c *OneConnection) VerifDelFromList() { c.delFromList() }
 `
-	return os.WriteFile(filepath.Join(src, "network", "zz_verif_export.go"), []byte(netexp), 0644)
+	if err := os.WriteFile(filepath.Join(src, "network", "zz_verif_export.go"), []byte(netexp), 0644); err != nil {
+		return err
+	}
+	// client/wallet: a process that starts has no balance maps at all (LoadBalances tells a file it could not read
+	// by that); the harness restarts the index within one process
+	walexp := `package wallet
+
+// generated by vcheck (scratch copy only)
+
+func VerifFreshProcess() {
+	for i := range allBalances {
+		allBalances[i] = nil
+	}
+	LAST_SAVED_FNAME = ""
+}
+`
+	return os.WriteFile(filepath.Join(src, "wallet", "zz_verif_export.go"), []byte(walexp), 0644)
 }
 
 func (s *scratch) build(harness string, race bool) string {
